@@ -403,11 +403,31 @@ class C01(vlib.PropertyCheck):
                    '"C" locale; vsnprintf, strtod, strtoul, fgets and read(2) behave as modelled',
                    'malloc does not fail; set_len/set_size are only called with the current values (they are raw field writes)']
 
+    tie_text = ('correspondence harness: gcc + ASan/UBSan build of src/*.c, harness/c01.c + c01_body.h (every history through '
+                'spif_str_* and spif_ustr_*), driver/c01_main.ml, lib/vlib.py; read(2) schedules injected with -Wl,--wrap=read, '
+                'streams are real files and pipes under build/work/c01')
+
     MANIFEST = dict(
         technique='Rocq refinement proof (executable Gallina model of every str/ustr method vs. ideal list-of-bytes value, by '
                   'induction over operation histories) + extracted-model/implementation correspondence check under ASan/UBSan',
-        text='placeholder',
-        design_ref='DESIGN.md section 7, C01')
+        text=('Str/StrModel.v mirrors the repaired src/str.c (= src/ustr.c after renaming) method by method - six constructors, done, dup, '
+              'append*/prepend*/splice*, substr*, trim, reverse (strrev of strings.c), upcase/downcase, clear, sprintf, cmp family, find*, '
+              'index/rindex, to_num, to_float, accessors - on an object {text pointer or NULL, len, size} whose buffer has exactly as many '
+              'cells as the allocation; every access is bounds- and initialisation-checked, so "stays inside its own buffer" is "never Fault". '
+              'Proved in full (Closed under the global context): C01_str_refines - for every constructor and EVERY finite list of operations of a '
+              'two-object machine (self + an argument object, so dup/substr results are used as later arguments and swapped in) the model returns '
+              'Ok, its outputs equal those of the ideal sequence (Str/StrSpec.v), both final texts are the ideal ones and both objects satisfy the '
+              'invariant NULL/0/0 or 0<=len<size=|buffer|, cells below len non-NUL, cell len NUL; C01_str_no_fault; C01_str_refused_unchanged / '
+              '_refusal_exact (positions outside the text: failure value, object bit-for-bit unchanged); C01_str_queries (index, rindex, find*, cmp '
+              'family, substr*, to_num, get_len on any object satisfying the invariant) with C01_spec_* giving the meaning of the ideal answers '
+              '(first/last occurrence, first match, not-found = length, order laws); C01_str_stream_chunks_fp/_fd for streams, lines and read '
+              'schedules of ANY length and any chunk size >= 2 / >= 1 (EINTR retried, EOF/EAGAIN/error stop), instantiated with buff_inc read from '
+              'the source. Not proved, decided by the correspondence check only: that libc behaves as modelled (strtoul digits/prefix/overflow rule, '
+              'fgets, read, vsnprintf as an oracle, strtod compared bit-for-bit by the harness), the exact capacity after each operation (level B), '
+              'ustr.c = str.c (every history runs through both), and that the C code is the modelled function. set_len/set_size are raw field '
+              'writes and appear in histories only with the current values. The unchanged library violated the property in 15 ways (fix: commits '
+              'listed in the report; corpus/C01/00-defects.txt holds one minimal history per defect).'),
+        design_ref='DESIGN.md section 7, C01; section 9 items 1-7')
 
     def split(self, case, out):
         a = re.sub(r' o?z=-?\d+', '', out)
@@ -481,7 +501,7 @@ class C01(vlib.PropertyCheck):
             hist.append('fp,%s glen appc,33' % hx(body + [0x0a] + [0x62] * 3))
             hist.append('fpp,%s glen' % hx(body + [0x0a]))
         # 3. random histories
-        nrand = 700 if tier == 'quick' else 60000
+        nrand = 700 if tier == 'quick' else 110000
         for i in range(nrand):
             nops = rng.choice([1, 2, 3, 5, 8, 13, 20, 30, 40])
             hist.append(g.history(nops, big=(rng.random() < 0.04)))
